@@ -647,6 +647,9 @@ type chainCase struct {
 	deprecatedValidate bool   // use Revocation.Validate (deprecated API) instead of ValidateContext
 	realFetcher        bool   // CRLs served over the scripted transport through the real HTTPFetcher
 	cancel             string // "", "before" (context cancelled before the call), "during" (cancelled when the first request arrives), "after"
+	// a sibling of the leaf with this serial (same issuer, same URLs) is checked first, with the same validator, fetcher and
+	// bundle objects: what the call under observation returns must not depend on calls made before it
+	warmupSerial *big.Int
 }
 
 var (
@@ -807,10 +810,7 @@ func runChainCase(r *Runner, cc chainCase, idx int) {
 				crlEnv[u] = map[string]any{"base": nil}
 			}
 		}
-		serial := any(cert.Cert.SerialNumber.Int64())
-		if !cert.Cert.SerialNumber.IsInt64() {
-			serial = 1
-		}
+		serial := any(cert.Cert.SerialNumber) // exact, whatever its width (the model's integers are unbounded)
 		certsIn = append(certsIn, map[string]any{
 			"cert":    map[string]any{"serial": serial, "ocsp": nn(l.ocspURLs), "crlDPs": nn(l.crlURLs), "hasFreshest": l.freshest},
 			"ocspEnv": ocspEnv, "crlEnv": crlEnv})
@@ -903,6 +903,27 @@ func runChainCase(r *Runner, cc chainCase, idx int) {
 			if e != nil {
 				panic(e)
 			}
+			if cc.warmupSerial != nil && len(iss) >= 2 && len(chain) == len(iss) {
+				sp := *iss[0].Spec
+				sp.Serial = cc.warmupSerial
+				sib, serr := issue(&sp, iss[1])
+				if serr != nil {
+					panic(serr)
+				}
+				chain2 := append([]*x509.Certificate{sib.Cert}, chain[1:]...)
+				func() {
+					defer func() { recover() }()
+					wctx, wcancel := context.WithTimeout(ctx, 2*time.Second)
+					defer wcancel()
+					_, _ = v.ValidateContext(wctx, revocation.ValidateContextOptions{CertChain: chain2, AuthenticSigningTime: st})
+				}()
+				tr.mu.Lock()
+				tr.log = nil
+				tr.mu.Unlock()
+				ft.mu.Lock()
+				ft.log = nil
+				ft.mu.Unlock()
+			}
 			results, err = v.ValidateContext(ctx, revocation.ValidateContextOptions{CertChain: chain, AuthenticSigningTime: st})
 			if cc.cancel == "after" {
 				cancelCtx()
@@ -922,7 +943,7 @@ func runChainCase(r *Runner, cc chainCase, idx int) {
 	}
 	impl := map[string]any{}
 	c := &Case{ID: fmt.Sprintf("%s-%d", cc.label, idx), K: "validate", In: in, Impl: impl, Class: cc.label, Tags: cc.tags,
-		Replay: map[string]any{"chain_pem": pemChain(chain), "levels": describeLevels(cc.levels), "mode": cc.mode, "purpose": purposeName, "st_zero": cc.stZero}}
+		Replay: map[string]any{"chain_pem": pemChain(chain), "levels": describeLevels(cc.levels), "mode": cc.mode, "purpose": purposeName, "st_zero": cc.stZero, "checked_first_sibling_serial": cc.warmupSerial}}
 	if panicked != nil {
 		impl["panic"] = fmt.Sprint(panicked)
 		r.Submit(c)
@@ -1034,6 +1055,13 @@ func runChainCases(r *Runner, cases []chainCase) {
 		}()
 	}
 	for i := range cases {
+		// every fourth eligible case is preceded by a check of a sibling certificate with the same validator, fetcher and
+		// bundle objects (a result must not depend on the calls made before it)
+		c := &cases[i]
+		if i%4 == 1 && c.warmupSerial == nil && c.mode != "ocsp" && c.cancel == "" && !c.deprecatedValidate && c.breakChain == "" && len(c.levels) >= 1 {
+			c.warmupSerial = big.NewInt(31337)
+			c.tags = append(append([]string{}, c.tags...), "after-sibling")
+		}
 		ch <- i
 	}
 	close(ch)
